@@ -30,12 +30,19 @@ def run(prop, prefixes, tier, seed, meta, expected_panics=(), jobs=8, timeout_s=
         else:
             res.inconclusive.append("%s: counterexample of '%s' did not replay natively: %s" % (n, d, why))
     hs = frag.get("harnesses", [])
+    try:
+        import json
+        cat = json.load(open(os.path.join(common.VERIF, "kani", "harness_catalogue.json")))
+    except Exception:
+        cat = {}
+    described = [dict(cat[h["name"].split("::")[-1]], harness=h["name"], verdict=h["status"]) for h in hs
+                 if isinstance(h, dict) and h["name"].split("::")[-1] in cat]
     passed = [h for h in hs if isinstance(h, dict) and h["status"] == "pass"]
     res.coverage = {
         "states": max(1, len(hs)),
         "transitions": max(1, frag.get("checks_discharged", 0)),
         "traces_validated_against_impl": replayed,
-        "samples": meta.get("samples") or [h["name"] for h in hs if isinstance(h, dict)][:6] or ["none"],
+        "samples": described[:8] or meta.get("samples") or [h["name"] for h in hs if isinstance(h, dict)][:6] or ["none"],
         "harnesses": hs,
         "harnesses_passed": len(passed),
         "reachability_witnesses_satisfied": frag.get("covers_satisfied", 0),
